@@ -149,7 +149,7 @@ def float_patterns(c, rng, ebits, mbits):
         for m in ms:
             for s in (0, 1):
                 out.append((s << (ebits + mbits)) | (e << mbits) | m)
-    nrand = (1000000 if mbits == 52 else 300000) if c.thorough else 8000
+    nrand = (1000000 if mbits == 52 else 200000) if c.thorough else 8000
     for _ in range(nrand):
         out.append(rng.below(1 << (1 + ebits + mbits)))
     # short decimals, integers, powers of ten and two: values people actually send
@@ -440,7 +440,7 @@ def run_check(c):
                 ln = "jsonp.rf " + hx(out + rng.choice([b"", b" ", b","]))
                 lines2.append(ln)
                 expect[ln] = ("special", {b'"NaN"': "nan", b'"+Inf"': "+inf", b'"-Inf"': "-inf"}.get(out), len(out))
-            elif c.thorough or rng.chance(1, 3):
+            elif rng.chance(1, 8 if c.thorough else 3):
                 w = f[0][-2:]
                 for form, used in ((out + rng.choice([b"", b" ", b",", b"}", b"]"]), len(out)), (b'"' + out + b'"', len(out) + 2)):
                     ln = "jsonp.rfn%s %s" % (w, hx(form))
